@@ -385,6 +385,7 @@ def correspondence(chk, KL, n_cases, nr_hi):
 GRAM_TOL = 1e-9        # observed 3e-15 on the clean tree; every mutation considered moves it by >= 1e-3
 DIAG_TOL = 1e-8        # npp = nth: relative to the largest variance; observed <= 3e-15 (10 seeds)
 TOP_TOL = 1e-10        # returned variances vs the oracle-side nfunc largest, relative to the largest; observed <= 2e-14
+RADII_TOL = 1e-12      # radp^2 evenly spaced by (1 - ri^2)/nr: absolute (r <= 1); observed <= 4.5e-16 (10 quick seeds + thorough)
 PAIR_TOL = 1e-12       # cos/sin partners: variances and radial functions agree to this relative error; observed 0
 # npp != nth (make_kl always: npp = int(2 pi nr)): the double average is taken on another azimuthal grid than the one the
 # kernel was integrated on, the identity holds up to that quadrature difference only.  Observed on the repaired tree, 10 seeds x
@@ -467,6 +468,15 @@ def check_polar_basis(chk, KL, b, ri, nr, npp, nfunc, bad, diag=True):
     # the returned functions are the nfunc of largest variance (orders >= 1 counted twice): against the oracle-side spectrum of
     # ALL orders below the kernel's Nyquist order - this is what the order loop's stop rule has to guarantee
     if rad.shape == (nr,) and numpy.all(numpy.isfinite(rad)):
+        # round 5 - the native grid is the equal-area one the uniform pupil averages above presuppose: the reported radii squared are
+        # evenly spaced by (1 - ri^2)/nr, the first within the first ring (whatever offset inside the ring the code chooses)
+        d_ring = (1.0 - float(ri) ** 2) / nr
+        r2 = rad ** 2
+        dev = float(numpy.abs(numpy.diff(r2) - d_ring).max()) if nr >= 2 else 0.0
+        _worst("radii:equal-area", dev)
+        if not (dev <= RADII_TOL and float(ri) ** 2 - RADII_TOL <= r2[0] <= float(ri) ** 2 + d_ring + RADII_TOL):
+            bad("radii:equal-area", "the basis' radial grid radp is not one point per ring of equal area between ri and 1: radp^2 = %s..., "
+                "ring area (1 - ri^2)/nr = %r, ri^2 = %r (largest deviation of a step %.3g)" % (r2[:3].tolist(), d_ring, float(ri) ** 2, dev))
         top = largest_variances(ref_spectrum(ri, nr, rad), nfunc)
         dv = numpy.abs(ev - top)
         _worst("largest", dv.max() / top[0])
@@ -769,6 +779,458 @@ def oracle(chk, KL, n_polar, n_cart, nr_hi):
         "fraction of the resampling-error bound)")
 
 
+# --------------------------------------------------------------------------- round 5: generator audit
+# Input classes, entry points and call histories the generators above never produce.  Everything here is either the property
+# itself (through polar_oracle / cart_oracle / render_oracle) or an EXACT equality between two ways of asking the library for the
+# same thing (argument types, spellings, entry points, repeated calls): no new tolerance.
+def _same(a, b):
+    """bit-for-bit equality of two results (arrays, scalars, dicts / tuples / lists of them)"""
+    if isinstance(a, dict):
+        return isinstance(b, dict) and a.keys() == b.keys() and all(_same(a[k], b[k]) for k in a)
+    if isinstance(a, (tuple, list)):
+        return isinstance(b, (tuple, list)) and len(a) == len(b) and all(_same(x, y) for x, y in zip(a, b))
+    if isinstance(a, str) or isinstance(b, str) or a is None or b is None:
+        return a == b
+    a, b = numpy.asarray(a), numpy.asarray(b)
+    return a.shape == b.shape and numpy.array_equal(a, b, equal_nan=(a.dtype.kind == "f" and b.dtype.kind == "f"))
+
+
+def _snapshot(x):
+    if isinstance(x, dict):
+        return {k: _snapshot(v) for k, v in x.items()}
+    if isinstance(x, (tuple, list)):
+        return [_snapshot(v) for v in x]
+    if isinstance(x, numpy.ndarray):
+        return x.copy()
+    return x
+
+
+def _scribble(x):
+    """what a caller may do with a result it owns: overwrite every array in it"""
+    if isinstance(x, dict):
+        for v in x.values():
+            _scribble(v)
+    elif isinstance(x, (tuple, list)):
+        for v in x:
+            _scribble(v)
+    elif isinstance(x, numpy.ndarray) and x.flags.writeable and x.size:
+        x[...] = (True if x.dtype.kind == "b" else 3 if x.dtype.kind in "iu" else -7.5e3)
+
+
+def _int_as(rng, v, zero_d=True):
+    """the same integer as another integer type.  numpy.uint64 is left out: TODO(round 5) rebin() raises IndexError for nr / npp
+    given as numpy.uint64 (numpy.arange(uint64) is a float64 array) - reported, not in the committed generator"""
+    kinds = [numpy.int32, numpy.int64, numpy.intp, numpy.uint32] + ([numpy.array] if zero_d else [])
+    return rng.choice(kinds)(v)
+
+
+def render_oracle(chk, KL, pb, ri, nr, ncp, ncmar, geom, bad, nsample, rng):
+    """pupil = annulus indicator and rendering within the resampling bound for the documented manual route
+    set_pctr(basis, ncp, ncmar) -> pol2car(geom, gkl_sfi(basis, i)), margins included (make_kl only ever uses ncmar = 0)"""
+    npp = int(pb["np"])
+    half = 0.5 * (ncp - 2 * ncmar)
+    c = (numpy.arange(ncp) - (ncp - 1) / 2.0) / half
+    X, Y = numpy.meshgrid(c, c)
+    R2 = X ** 2 + Y ** 2
+    sure = (numpy.abs(R2 - ri ** 2) > 1e-12) & (numpy.abs(R2 - 1.0) > 1e-12)
+    ind = ((R2 >= ri ** 2) & (R2 <= 1.0))
+    ap = numpy.asarray(geom["ap"])
+    if ap.shape != (ncp, ncp) or not numpy.array_equal(ap.astype(bool)[sure], ind[sure]):
+        bad("pupil:margin", "set_pctr(basis, ncp=%d, ncmar=%d)['ap'] is not the indicator of the annulus of outer radius (ncp - 2 ncmar)/2 pixels"
+            % (ncp, ncmar))
+        return
+    for name, q in (("up-down flip", ap[::-1, :]), ("left-right flip", ap[:, ::-1]), ("transposition", ap.T)):
+        if not numpy.array_equal(ap, q):
+            bad("pupil:asymmetric", "set_pctr(basis, ncp=%d, ncmar=%d)['ap'] changes under %s" % (ncp, ncmar, name))
+            return
+    nf = int(pb["nfunc"])
+    if 2 * ((max(int(x) for x in pb["ord"]) + 1) // 2) >= npp:
+        return
+    inside = ind & ap.astype(bool)
+    cpos = (R2 - ri ** 2) / (1 - ri ** 2) * nr
+    th = numpy.arctan2(Y, X) % (2 * numpy.pi)
+    for i in sorted(rng.sample(range(nf), min(nf, nsample))):
+        pol = KL.gkl_sfi(pb, i)
+        un = KL.pol2car(geom, pol, mask=False)
+        ma = KL.pol2car(geom, pol, mask=True)
+        if un.shape != (ncp, ncp) or not numpy.array_equal(ma, un * ap):
+            bad("mask-consistency:margin", "pol2car(geom, f_%d, mask=True) differs from pol2car(geom, f_%d, mask=False)*geom['ap'] (ncp=%d, ncmar=%d)"
+                % (i, i, ncp, ncmar))
+            return
+        ref, bound, amp = cart_follows_polar(pb, i, ri, nr, npp, cpos, th)
+        ratio = numpy.where(inside, numpy.abs(un - ref) / bound, 0.0)
+        _worst("cartesian:margin", ratio.max())
+        if ratio.max() > 1.0:
+            r, cc = numpy.unravel_index(numpy.argmax(ratio), ratio.shape)
+            bad("cartesian:follows-polar:margin", "function %d (ord %d) rendered with set_pctr(basis, ncp=%d, ncmar=%d) + pol2car is %r at pixel "
+                "(row %d, col %d) but the polar function at that pixel's (r, theta) = (%.4f, %.4f rad) is %r; resampling-error bound %.3g"
+                % (i, int(pb["ord"][i]), ncp, ncmar, float(un[r, cc]), r, cc, math.sqrt(R2[r, cc]), th[r, cc], float(ref[r, cc]), bound[r, cc]))
+            return
+
+
+def oracle_round5(chk, KL):
+    import inspect
+    import aotools
+    from aotools import functions as F
+    rng = chk.rng
+    quick = chk.tier == "quick"
+    APIS = [("aotools.functions.karhunenLoeve", KL), ("aotools.functions", F), ("aotools", aotools)]
+
+    def fails(rep):
+        def bad(key, what):
+            chk.fail(key, "%s [%s]" % (what, rep.get("call", "")), rep)
+        return bad
+
+    def call(rep, key, fn, *a, **k):
+        try:
+            return True, _quiet(fn, *a, **k)
+        except Exception as ex:
+            chk.fail("construct:%s:%s" % (key, type(ex).__name__), "%s raised %s: %s" % (rep.get("call", key), type(ex).__name__, str(ex)[:200]), rep)
+            return False, None
+
+    def small_config(nr_lo=4, nr_hi=9):
+        for _ in range(50):
+            nr = rng.randint(nr_lo, nr_hi)
+            ri = rng.choice([common.dyadic(rng, 1 / 16, 14 / 16, 4), rng.uniform(0.03, 0.9)])
+            npp = int(2 * math.pi * nr)
+            nmax = rng.randint(2, max(2, min(16, (nr * npp) // 15)))
+            if stopping_order(KL, ri, nr, nmax) is not None:
+                return ri, nr, nmax
+        return 0.25, 8, 8
+
+    # ---- (1) the package-level names are the functions of the module (what is checked through the module holds for every spelling)
+    for name, f in sorted(vars(KL).items()):
+        if not (inspect.isfunction(f) and f.__module__ == KL.__name__):
+            continue
+        for api, A in APIS[1:]:
+            chk.oracle_cases += 1
+            chk.count("oracle:r5:alias")
+            g = getattr(A, name, None)
+            if g is f:
+                continue
+            args = {"gkl_radii": [(0.3, 7)], "piston_orth": [(5,)], "gkl_azimuthal": [(5, 12)], "radii": [(4, 9, 0.3)],
+                    "gkl_basis": [(0.3, 6, 30, 5)], "make_kl": [(5, 12, 0.3, 6)], "pcgeom": [(5, 30, 12, 0.25, 0)],
+                    "stf_kolmogorov": [(numpy.array([0.25, 2.0]),)]}.get(name, [])
+            same = g is not None and bool(args)
+            for a in (args if same else []):
+                try:
+                    same = same and _same(_snapshot(_quiet(g, *a)), _snapshot(_quiet(f, *a)))
+                except Exception:
+                    same = False
+            if not same:
+                chk.fail("alias:%s" % name, "%s.%s is not aotools.functions.karhunenLoeve.%s (%s)" % (api, name, name,
+                         "missing" if g is None else "another function with different results"), {"call": "%s.%s" % (api, name)})
+    chk.case(("r5", "alias"))
+
+    # ---- (2) argument types and spellings: the same request must give the same answer, bit for bit, as the plain call that
+    #          polar_oracle / cart_oracle verify
+    for it in range(5 if quick else 40):
+        ri, nr, nmax = small_config()
+        dim = rng.randint(8, 30)
+        api, A = rng.choice(APIS)
+        chk.oracle_cases += 1
+        chk.count("oracle:r5:types-and-spellings")
+        chk.case(("r5", "types", ri, nr, nmax, dim))
+        cart_oracle(chk, KL, nmax, dim, ri, nr)                       # the plain call satisfies the property …
+        ok, plain = call({"call": "make_kl(%d, %d, ri=%r, nr=%d)" % (nmax, dim, ri, nr)}, "make_kl", KL.make_kl, nmax, dim, ri=ri, nr=nr)
+        if not ok:
+            continue
+        plain = _snapshot(plain)
+        # numpy.float64 takes the arithmetic path of a Python float (bit-identical results).  A 0-d ARRAY does not: ri**2 is then
+        # numpy.square (x·x) instead of libm's pow(x, 2), which differ by one ulp for about one ri in a thousand (seen: ri =
+        # 0.6799356780698036, radp / evals / rabas off by 1e-17 … 5e-15) - so it gets the property check below, not an equality
+        rif = rng.choice([numpy.float64, float])(ri)
+        variants = [
+            ("%s.make_kl(%s(%d), %s(%d), ri=%s(%r), nr=%s(%d))", lambda a, b, c, d: A.make_kl(a, b, ri=c, nr=d),
+             (_int_as(rng, nmax), _int_as(rng, dim), rif, _int_as(rng, nr))),
+            ("%s.make_kl(%s(%d), %s(%d), %s(%r), %s(%d), 'kolstf', None, True)  [positional, the other Kolmogorov tag]",
+             lambda a, b, c, d: A.make_kl(a, b, c, d, "kolstf", None, True), (nmax, dim, ri, nr)),
+            ("%s.make_kl(nmax=%s(%d), dim=%s(%d), ri=%s(%r), nr=%s(%d), stf='kolmogorov', outerscale=None, mask=numpy.True_)  [keywords]",
+             lambda a, b, c, d: A.make_kl(nmax=a, dim=b, ri=c, nr=d, stf="kolmogorov", outerscale=None, mask=numpy.True_), (nmax, dim, ri, nr)),
+            ("%s.make_kl(%s(%d), %s(%d), ri=%s(%r), nr=%s(%d), mask=1)", lambda a, b, c, d: A.make_kl(a, b, ri=c, nr=d, mask=1), (nmax, dim, ri, nr)),
+        ]
+        for fmt, fn, args in variants:
+            desc = fmt % ((api,) + tuple(x for a in args for x in (type(a).__name__, a.item() if hasattr(a, "item") else a)))
+            rep = {"call": desc, "nmax": nmax, "dim": dim, "ri": ri, "nr": nr}
+            ok, out = call(rep, "make_kl:typed", fn, *args)
+            if ok and not _same(out, plain):
+                chk.fail("types:make_kl", "%s differs from make_kl(%d, %d, ri=%r, nr=%d) with Python int / float arguments" % (desc, nmax, dim, ri, nr), rep)
+        ok, plain_u = call({"call": "make_kl(%d, %d, ri=%r, nr=%d, mask=False)" % (nmax, dim, ri, nr)}, "make_kl", KL.make_kl, nmax, dim, ri=ri, nr=nr, mask=False)
+        if ok:
+            desc = "%s.make_kl(%d, %d, %r, %d, 'kolmogorov', None, False)  [all seven arguments positional]" % (api, nmax, dim, ri, nr)
+            rep = {"call": desc, "nmax": nmax, "dim": dim, "ri": ri, "nr": nr}
+            ok, out = call(rep, "make_kl:positional", A.make_kl, nmax, dim, ri, nr, "kolmogorov", None, False)
+            if ok and not _same(out, plain_u):
+                chk.fail("spelling:make_kl", "%s differs from make_kl(%d, %d, ri=%r, nr=%d, mask=False)" % (desc, nmax, dim, ri, nr), rep)
+            ok, out = call(rep, "gkl_basis:positional", A.gkl_basis, ri, nr, 5 * nr, nmax, "kolstf", None)
+            if ok and not _same(out, _quiet(KL.gkl_basis, ri=ri, nr=nr, npp=5 * nr, nfunc=nmax)):
+                chk.fail("spelling:gkl_basis", "gkl_basis(%r, %d, %d, %d, 'kolstf', None) differs from the keyword call" % (ri, nr, 5 * nr, nmax), rep)
+        # gkl_basis: default azimuthal sampling (npp omitted / None), keywords, both Kolmogorov tags, typed arguments
+        nfunc = nmax
+        for desc, fn in (("gkl_basis(%r, %d, None, %d)" % (ri, nr, nfunc), lambda: A.gkl_basis(ri, nr, None, nfunc)),
+                         ("gkl_basis(ri=%r, nr=%d, nfunc=%d)  [npp left out]" % (ri, nr, nfunc), lambda: A.gkl_basis(ri=ri, nr=nr, nfunc=nfunc)),
+                         ("gkl_basis(%r, %d, nfunc=%d, stf='kolmogorov')" % (ri, nr, nfunc), lambda: A.gkl_basis(ri, nr, nfunc=nfunc, stf="kolmogorov"))):
+            rep = {"call": "%s.%s" % (api, desc), "ri": ri, "nr": nr, "nfunc": nfunc}
+            ok, b = call(rep, "gkl_basis:default-npp", fn)
+            if not ok:
+                continue
+            try:
+                npp_d = int(b["np"])
+            except Exception:
+                chk.fail("shape", "gkl_basis with npp left out reports np = %r" % (b.get("np"),), rep)
+                continue
+            try:
+                tmax_d = (max(int(x) for x in b["ord"]) + 1) // 2
+            except Exception:
+                tmax_d = 0
+            if 2 * tmax_d >= npp_d and 2 * tmax_d < 5 * nr:           # the default grid must resolve what the kernel's own grid (5 nr) resolves
+                chk.fail("default:npp", "gkl_basis with npp left out samples the azimuth on %d points only: azimuthal order %d of the %d "
+                         "functions asked for is not resolved (nr = %d; the kernel's own azimuthal grid has %d points)"
+                         % (npp_d, tmax_d, nfunc, nr, 5 * nr), rep)
+                continue
+            check_polar_basis(chk, KL, b, ri, nr, npp_d, nfunc, fails(rep))
+        npp = 5 * nr
+        rep = {"call": "%s.gkl_basis(numpy.array(%r), %d, %d, %d)  [0-d array obscuration]" % (api, ri, nr, npp, nfunc), "ri": ri, "nr": nr, "npp": npp, "nfunc": nfunc}
+        ok, b0d = call(rep, "gkl_basis:0-d-ri", A.gkl_basis, numpy.array(ri), nr, npp, nfunc)
+        if ok:
+            check_polar_basis(chk, KL, b0d, ri, nr, npp, nfunc, fails(rep))
+        ok, bplain = call({"call": "gkl_basis(%r, %d, %d, %d)" % (ri, nr, npp, nfunc)}, "gkl_basis", KL.gkl_basis, ri, nr, npp, nfunc)
+        if ok:
+            bplain = _snapshot(bplain)
+            ta = (rif, _int_as(rng, nr), _int_as(rng, npp), _int_as(rng, nfunc))
+            desc = "%s.gkl_basis(%s)" % (api, ", ".join("%s(%r)" % (type(a).__name__, a.item() if hasattr(a, "item") else a) for a in ta))
+            rep = {"call": desc, "ri": ri, "nr": nr, "npp": npp, "nfunc": nfunc}
+            ok, bt = call(rep, "gkl_basis:typed", A.gkl_basis, *ta)
+            if ok:
+                keys = ("radp", "evals", "nord", "npo", "ord", "rabas", "azbas")
+                if not all(_same(bt[k], bplain[k]) for k in keys):
+                    chk.fail("types:gkl_basis", "%s differs from the call with Python int / float arguments in %s"
+                             % (desc, [k for k in keys if not _same(bt[k], bplain[k])]), rep)
+                else:
+                    i = rng.randrange(nfunc)
+                    ok, f1 = call(rep, "gkl_sfi:typed", A.gkl_sfi, bt, _int_as(rng, i))
+                    if ok and not _same(f1, KL.gkl_sfi(bplain, i)):
+                        chk.fail("types:gkl_sfi", "gkl_sfi(basis, %d) on the basis of %s differs from the plain one" % (i, desc), rep)
+
+    # ---- (3) entry points: the documented manual route (gkl_radii -> gkl_kernel -> gkl_fcom -> gkl_azimuthal; set_pctr -> pol2car)
+    #          gives what gkl_basis / make_kl give, with the caller's arrays read-only / oddly laid out and left untouched; the
+    #          margin route (ncmar = 1, 2 and set_pctr's defaults) satisfies the Cartesian part of the property
+    for it in range(5 if quick else 40):
+        ri, nr, nmax = small_config()
+        dim = rng.randint(8, 30)
+        npp = int(2 * math.pi * nr)
+        chk.oracle_cases += 1
+        chk.count("oracle:r5:manual-route")
+        chk.case(("r5", "manual", ri, nr, nmax, dim))
+        rep = {"call": "manual route for make_kl(%d, %d, ri=%r, nr=%d)" % (nmax, dim, ri, nr), "nmax": nmax, "dim": dim, "ri": ri, "nr": nr}
+        bad = fails(rep)
+        ok, res = call(rep, "make_kl", KL.make_kl, nmax, dim, ri=ri, nr=nr, mask=False)
+        if not ok:
+            continue
+        klu, var, pup, pb = res
+        lay = ["readonly", "strided", "list", "reversed", "plain"][it % 5]
+        rad0 = KL.gkl_radii(ri, nr)
+        if lay == "readonly":
+            rad = rad0.copy()
+            rad.setflags(write=False)
+        elif lay == "strided":
+            big = numpy.zeros(2 * nr)
+            big[::2] = rad0
+            rad = big[::2]
+        elif lay == "reversed":
+            rad = rad0[::-1].copy()[::-1]
+        elif lay == "list":
+            rad = [float(x) for x in rad0]
+        else:
+            rad = rad0.copy()
+        chk.count("oracle:r5:radii-layout:" + lay)
+        ok, kers = call(dict(rep, call="gkl_kernel(%r, %d, <%s radii>)" % (ri, nr, lay)), "gkl_kernel:" + lay, KL.gkl_kernel, ri, nr, rad)
+        if not ok:
+            continue
+        if not numpy.array_equal(numpy.asarray(rad, dtype=float), rad0) or not numpy.array_equal(KL.gkl_radii(ri, nr), rad0):
+            bad("inplace:gkl_kernel", "gkl_kernel modified the radii it was given (%s array)" % lay)
+        klay = ["readonly", "fortran", "plain"][it % 3]
+        kk = kers.copy()
+        if klay == "readonly":
+            kk.setflags(write=False)
+        elif klay == "fortran":
+            kk = numpy.asfortranarray(kk)
+        ok, fc = call(dict(rep, call="gkl_fcom(%r, <%s kernels>, %d, verbose=%s)" % (ri, klay, nmax, it % 2 == 0)), "gkl_fcom:" + klay,
+                      KL.gkl_fcom, ri, kk, nmax, verbose=(it % 2 == 0))
+        if not ok:
+            continue
+        if not numpy.array_equal(kk, kers):
+            bad("inplace:gkl_fcom", "gkl_fcom modified its kernels argument (%s array)" % klay)
+        evals, nord, npo, oord, rabas = fc
+        manual = {"nr": nr, "np": npp, "nfunc": nmax, "ri": ri, "stfn": " ", "radp": numpy.asarray(rad, dtype=float), "evals": evals, "nord": nord,
+                  "npo": npo, "ord": oord, "rabas": rabas, "azbas": KL.gkl_azimuthal(nord, npp)}
+        if klay == "fortran":
+            # another memory layout may send the matrix products down another BLAS path (last-bit differences are legitimate):
+            # the property itself on the basis built from the Fortran-ordered kernels, no bit-for-bit comparison
+            check_polar_basis(chk, KL, manual, ri, nr, npp, nmax, bad)
+            continue
+        diff = [k for k in ("radp", "evals", "nord", "npo", "ord", "rabas", "azbas") if not _same(manual[k], pb[k])]
+        if diff:
+            bad("route:gkl_basis", "gkl_radii -> gkl_kernel -> gkl_fcom -> gkl_azimuthal gives other %s than the polar basis make_kl returns" % diff)
+            continue
+        before = _snapshot(manual)
+        geom = KL.set_pctr(manual, ncp=dim, ncmar=0)
+        gsnap = _snapshot(geom)
+        for i in range(nmax):
+            pol = KL.gkl_sfi(manual, i)
+            pol.setflags(write=False)
+            if not numpy.array_equal(KL.pol2car(geom, pol, mask=False), klu[i]):
+                bad("route:make_kl", "pol2car(set_pctr(basis, ncp=%d, ncmar=0), gkl_sfi(basis, %d)) is not make_kl(...)[0][%d] bit for bit" % (dim, i, i))
+                break
+        if not _same(manual, before):
+            bad("inplace:basis", "gkl_sfi / set_pctr / pol2car modified the basis dictionary they were given")
+        if not _same(geom, gsnap):
+            bad("inplace:geometry", "pol2car modified the geometry dictionary it was given")
+        if not numpy.array_equal(numpy.asarray(geom["ap"], dtype=float), pup):
+            bad("route:make_kl", "set_pctr(basis, ncp=%d, ncmar=0)['ap'] is not the pupil make_kl returns" % dim)
+        # margins
+        for ncp, ncmar, kw in ((dim + rng.randint(2, 6), 1, None), (dim + rng.randint(4, 9), 2, None), (128, 2, {}), (dim + 5, 2, {"ncp": dim + 5})):
+            if kw is not None and it > 0 and quick:
+                continue
+            rep2 = dict(rep, call="set_pctr(basis%s) + pol2car for the basis of make_kl(%d, %d, ri=%r, nr=%d)"
+                        % ((", ncp=%d, ncmar=%d" % (ncp, ncmar)) if kw is None else "".join(", %s=%d" % kv for kv in kw.items()) + "  [defaults]",
+                           nmax, dim, ri, nr), ncp=ncp, ncmar=ncmar)
+            ok, g2 = call(rep2, "set_pctr", KL.set_pctr, manual, **({"ncp": ncp, "ncmar": ncmar} if kw is None else kw))
+            if not ok:
+                continue
+            chk.count("oracle:r5:margin:ncmar=%d%s" % (ncmar, "" if kw is None else ":default"))
+            try:                                   # defaults: whatever size / margin the geometry reports, the property must hold for it
+                ncp_g, ncmar_g = int(g2["ncp"]), int(g2["ncmar"])
+                okg = numpy.shape(g2["ap"]) == (ncp_g, ncp_g) and ncp_g - 2 * ncmar_g >= 2 and (kw is not None or (ncp_g, ncmar_g) == (ncp, ncmar))
+            except Exception:
+                okg = False
+            if not okg:
+                fails(rep2)("shape:set_pctr", "set_pctr reports ncp=%r ncmar=%r, pupil shape %s" % (g2.get("ncp"), g2.get("ncmar"), numpy.shape(g2.get("ap"))))
+                continue
+            render_oracle(chk, KL, manual, ri, nr, ncp_g, ncmar_g, g2, fails(rep2), 3 if ncp_g > 64 else 6, rng)
+
+    # ---- (4) histories: A(ri1) B(ri2) A(ri1) on one (nr, dim) with the other mask flag in between; mode counts going DOWN;
+    #          results overwritten by the caller before the same call is repeated
+    for it in range(3 if quick else 25):
+        nr = rng.randint(5, 9)
+        dim = rng.randint(10, 28)
+        ris = []
+        for _ in range(40):
+            r_ = rng.choice([common.dyadic(rng, 1 / 16, 14 / 16, 4), rng.uniform(0.05, 0.85)])
+            if all(abs(r_ - x) > 0.05 for x in ris):
+                ris.append(r_)
+            if len(ris) == 2:
+                break
+        npp = int(2 * math.pi * nr)
+        nmax = rng.randint(2, max(2, min(12, (nr * npp) // 15)))
+        if len(ris) < 2 or any(stopping_order(KL, r_, nr, nmax) is None for r_ in ris):
+            chk.count("oracle:beyond-resolution-limit")
+            continue
+        chk.oracle_cases += 1
+        chk.count("oracle:r5:history:ABA")
+        chk.case(("r5", "ABA", tuple(ris), nr, nmax, dim))
+        after = []
+        firsts = {}
+        for step, (r_, mask) in enumerate(((ris[0], True), (ris[1], False), (ris[0], False), (ris[1], True), (ris[0], True))):
+            desc = "make_kl(%d, %d, ri=%r, nr=%d, mask=%s)" % (nmax, dim, r_, nr, mask)
+            rep = {"call": desc, "nmax": nmax, "dim": dim, "ri": r_, "nr": nr, "mask": mask, "after_in_same_process": list(after)}
+            ok, out = call(rep, "make_kl", KL.make_kl, nmax, dim, ri=r_, nr=nr, mask=mask)
+            if ok:
+                if (r_, mask) in firsts and not _same(out, firsts[(r_, mask)]):
+                    chk.fail("history:same-nr-dim-other-ri", "%s differs from the same call made earlier in this process (calls in between: %s)"
+                             % (desc, after), rep)
+                firsts.setdefault((r_, mask), _snapshot(out))
+            cart_oracle(chk, KL, nmax, dim, r_, nr, after=tuple(after), diag=(step < 2))
+            after.append(desc)
+    for it in range(2 if quick else 12):
+        nr = rng.randint(5, 9)
+        ri = rng.choice([common.dyadic(rng, 1 / 16, 14 / 16, 4), rng.uniform(0.05, 0.85)])
+        lim = max(3, min(50, nr * 5 * nr // 8))
+        nfs = sorted(rng.sample(range(1, lim + 1), 3), reverse=True)
+        after = []
+        for nfunc in nfs:
+            if stopping_order(KL, ri, nr, nfunc) is None:
+                continue
+            chk.oracle_cases += 1
+            chk.count("oracle:r5:history:decreasing-nfunc")
+            chk.case(("r5", "decreasing", ri, nr, nfunc, len(after)))
+            polar_oracle(chk, KL, ri, nr, 5 * nr, "nth", nfunc, after=tuple(after))
+            after.append("gkl_basis(ri=%r, nr=%d, npp=%d, nfunc=%d)" % (ri, nr, 5 * nr, nfunc))
+    for it in range(3 if quick else 25):
+        ri, nr, nmax = small_config()
+        dim = rng.randint(8, 24)
+        npp = 5 * nr
+        chk.oracle_cases += 1
+        chk.count("oracle:r5:history:overwritten")
+        chk.case(("r5", "overwritten", ri, nr, nmax, dim))
+        basis = _quiet(KL.gkl_basis, ri, nr, npp, nmax)
+        steps = [("gkl_radii(%r, %d)" % (ri, nr), lambda: KL.gkl_radii(ri, nr)),
+                 ("gkl_kernel(%r, %d, gkl_radii(%r, %d))" % (ri, nr, ri, nr), lambda: KL.gkl_kernel(ri, nr, KL.gkl_radii(ri, nr))),
+                 ("piston_orth(%d)" % nr, lambda: KL.piston_orth(nr)),
+                 ("gkl_azimuthal(%d, %d)" % (7, npp), lambda: KL.gkl_azimuthal(7, npp)),
+                 ("gkl_basis(%r, %d, %d, %d)" % (ri, nr, npp, nmax), lambda: KL.gkl_basis(ri, nr, npp, nmax)),
+                 ("set_pctr(gkl_basis(%r, %d, %d, %d), ncp=%d, ncmar=0)" % (ri, nr, npp, nmax, dim), lambda: KL.set_pctr(basis, ncp=dim, ncmar=0)),
+                 ("pcgeom(%d, %d, %d, %r, 1)" % (nr, npp, dim, ri), lambda: KL.pcgeom(nr, npp, dim, ri, 1)),
+                 ("make_kl(%d, %d, ri=%r, nr=%d)" % (nmax, dim, ri, nr), lambda: KL.make_kl(nmax, dim, ri=ri, nr=nr))]
+        done = []
+        for desc, fn in steps:
+            rep = {"call": desc, "ri": ri, "nr": nr, "nmax": nmax, "dim": dim, "after_in_same_process": list(done)}
+            ok, first = call(rep, "history", fn)
+            if not ok:
+                continue
+            keep = _snapshot(first)
+            _scribble(first)
+            done.append(desc + " [result overwritten by the caller]")
+            ok, second = call(rep, "history", fn)
+            done.append(desc)
+            if ok and not _same(second, keep):
+                chk.fail("history:result-overwritten:%s" % desc.split("(")[0], "%s returns something else after the caller overwrote the arrays "
+                         "returned by the first identical call (results share storage with internal state)" % desc, rep)
+        # … and the property still holds afterwards
+        cart_oracle(chk, KL, nmax, dim, ri, nr, after=tuple(done[-3:]), diag=False)
+
+    # ---- (5) extreme obscurations and sizes inside the stated domain
+    extremes = [(1e-8, 6), (1e-4, 9), (0.995, 7), (0.9999, 6)]
+    for ri, nr in ([rng.choice(extremes[:2]), rng.choice(extremes[2:])] if quick else extremes):
+        nfunc = rng.randint(2, 10)
+        if stopping_order(KL, ri, nr, nfunc) is None:
+            chk.count("oracle:beyond-resolution-limit")
+            continue
+        chk.oracle_cases += 1
+        chk.count("oracle:r5:extreme-ri")
+        chk.case(("r5", "extreme-ri", ri, nr, nfunc))
+        polar_oracle(chk, KL, ri, nr, 5 * nr, "nth", nfunc)
+    for dim in (rng.sample(range(2, 8), 3) if quick else range(2, 8)):
+        ri, nr, nmax = small_config()
+        chk.oracle_cases += 1
+        chk.count("oracle:r5:tiny-dim")
+        chk.case(("r5", "tiny-dim", nmax, dim, ri, nr))
+        cart_oracle(chk, KL, nmax, dim, ri, nr, diag=False)
+    if not quick:
+        for (nmax, dim, ri, nr) in ((40, 255, 0.3, 12), (30, 256, 0.15, 10), (60, 64, 0.25, 50), (80, 48, 0.4, 60)):
+            if stopping_order(KL, ri, nr, nmax) is None:
+                continue
+            chk.oracle_cases += 1
+            chk.count("oracle:r5:large")
+            chk.case(("r5", "large", nmax, dim, ri, nr))
+            cart_oracle(chk, KL, nmax, dim, ri, nr)
+        # the module's own defaults: gkl_basis(ri) = 40 rings, 200 angles, 500 functions
+        ri = rng.choice([0.25, 0.2, 0.4])
+        rep = {"call": "gkl_basis(%r)  [nr, npp, nfunc left at their defaults]" % ri, "ri": ri}
+        ok, b = call(rep, "gkl_basis:defaults", KL.gkl_basis, ri)
+        if ok:
+            chk.oracle_cases += 1
+            chk.case(("r5", "all-defaults", ri))
+            try:
+                nr_d, npp_d, nf_d = int(b["nr"]), int(b["np"]), int(b["nfunc"])
+            except Exception:
+                nr_d = None
+            if nr_d is None or stopping_order(KL, ri, nr_d, nf_d) is None:
+                chk.count("oracle:beyond-resolution-limit")
+            else:
+                check_polar_basis(chk, KL, b, ri, nr_d, npp_d, nf_d, fails(rep))
+
+
 def run(chk):
     from aotools.functions import karhunenLoeve as KL
     quick = chk.tier == "quick"
@@ -784,7 +1246,18 @@ def run(chk):
                 "dominant functions / 1 % of the largest for all / off-diagonal 1e-3 of the largest; pupil = indicator exactly away "
                 "from the rim and flip/transpose-symmetric exactly, masked zero outside exactly, Cartesian value within the "
                 "resampling-error bound of R_lin(r) az(m theta); several constructions for one (ri, nr) in one process each checked; "
-                "distinct = distinct (ri, nr, npp, nfunc[, dim])")
+                "distinct = distinct (ri, nr, npp, nfunc[, dim]). ROUND 5 (generator audit): radp^2 evenly spaced by (1 - ri^2)/nr, first point "
+                "inside the first ring (abs 1e-12; observed <= 5e-16); EXACT equalities, no tolerance: package-level names are the module's "
+                "functions; make_kl / gkl_basis / gkl_sfi with numpy int32/int64/intp/uint32 scalars, 0-d integer arrays, numpy.float64 ri, all "
+                "arguments positional, all by keyword, both Kolmogorov tags, mask = 1 / numpy.True_ = the plain call; the manual route "
+                "gkl_radii -> gkl_kernel (radii read-only / strided / reversed / list) -> gkl_fcom (kernels read-only / Fortran, verbose) -> "
+                "gkl_azimuthal = make_kl's polar basis, pol2car(set_pctr(basis, dim, 0), gkl_sfi(basis, i)) = make_kl(...)[0][i], with every "
+                "argument left untouched; a call repeated after the caller overwrote the first result (gkl_radii, gkl_kernel, piston_orth, "
+                "gkl_azimuthal, gkl_basis, set_pctr, pcgeom, make_kl) or after other pupils were built (A B A B A on one (nr, dim) with both "
+                "mask flags) = the first answer. Property on new inputs: gkl_basis with npp left out (and nr, npp, nfunc all left out: "
+                "thorough), margins ncmar = 1, 2 and set_pctr's defaults (pupil = indicator of the annulus of radius (ncp - 2 ncmar)/2, "
+                "rendering within the same resampling bound), mode counts going down for one pupil, ri = 1e-8, 1e-4, 0.995, 0.9999, "
+                "dim = 2..7, thorough: dim = 255, 256, nr = 50, 60")
     chk.assumptions = [
         "numpy.linalg.eigh returns orthonormal eigenvectors with ascending eigenvalues of the symmetric matrix it is given "
         "(theorem hypothesis; checked numerically on every instance of the correspondence run)",
@@ -816,6 +1289,13 @@ def run(chk):
         "factorisation of bilinear interpolation of a separable table and the periodic closure of the azimuth "
         "(bilinear_separable, wrap_closes_azimuth)",
         "Real.sqrt/cos/sin/pi model numpy's up to IEEE rounding",
+        "integer arguments are generated as Python int, numpy int32 / int64 / intp / uint32 scalars and 0-d int64 arrays; numpy.uint64 "
+        "is NOT generated (rebin raises IndexError for nr / npp given as numpy.uint64 - numpy.arange(uint64) is a float64 array; "
+        "reported in round 5, not a committed finding), integer scalars narrower than 32 bits neither (ncp*ncp wraps); dim = 1 is not "
+        "generated (setpincs divides 0/0 and indexes with the result); ri is a Python float or numpy.float64 (bit-identical results "
+        "demanded) or a 0-d float64 array (property checked, no bit-identity: ri**2 is then x·x instead of pow(x, 2), one ulp apart "
+        "for about one ri in a thousand); float32 obscurations are not generated (the spectrum oracle is sized for binary64); kernels "
+        "handed to gkl_fcom in Fortran order get the property check, not bit-identity (another BLAS path)",
     ]
     meta = t1check.regenerate(chk)
     chk.build_and_audit("AoVerif.Props.C13", "AoVerif.Props.C13", REQUIRED)
@@ -830,3 +1310,9 @@ def run(chk):
     except common.LeanError as ex:
         chk.broke("correspondence", "the Lean driver of the model does not build / run", str(ex))
     oracle(chk, KL, 30 if quick else 2500, 6 if quick else 300, nr_hi)
+    oracle_round5(chk, KL)
+    if chk.notes and chk.notes[-1].startswith("largest observed"):
+        chk.notes.pop()
+    chk.notes.append("largest observed / allowed on this run: " + ", ".join(
+        "%s %.3g" % (k, v) for k, v in sorted(WORST.items())) + "  (gram, mean: absolute; largest, diag:*: relative; cartesian*: "
+        "fraction of the resampling-error bound)")
